@@ -454,7 +454,7 @@ fn leaf_candidates(kind: Leaf, orig: &Value, c: &Consts, rng: &mut Rng) -> Vec<(
             add("bn=hex prefix", json!("0x10"));
             add("bn=minus only", json!("-"));
             add("bn=minus zero", json!("-0"));
-            add("bn=20000 digits", json!("9".repeat(20000)));
+            add("bn=5000 digits", json!("9".repeat(5000)));
             add("bn=json number", json!(5));
             add("bn=negative json number", json!(-5));
             add("bn=byte array", json!([1, 2, 3, 4]));
@@ -668,7 +668,7 @@ fn structural(path: &Path, v: &Value) -> Vec<Mutn> {
                 out.push(mk(Op::DropAt(a.len() - 1), "list: last dropped".into()));
                 out.push(mk(Op::DupAt(0), "list: first duplicated".into()));
                 out.push(mk(Op::Push(vec![a[a.len() - 1].clone()]), "list: extended by copy of last".into()));
-                out.push(mk(Op::Push(vec![a[0].clone(); 100]), "list: extended by 100 copies".into()));
+                out.push(mk(Op::Push(vec![a[0].clone(); 30]), "list: extended by 30 copies".into()));
                 out.push(mk(Op::Reverse, "list: reversed".into()));
             }
             out.push(mk(Op::Push(vec![Value::Null]), "list: null appended".into()));
@@ -1792,7 +1792,7 @@ fn batch(thorough: bool, rng: &mut Rng) -> Result<(), String> {
     let start = env_num("C20_START", part as u64) as usize;
     let count = env_num("C20_COUNT", if thorough { 300000 } else { 1500 }) as usize;
     let budget = Duration::from_millis(env_num("C20_BUDGET_MS", 60000));
-    let timeout = Duration::from_millis(env_num("C20_TIMEOUT_MS", if thorough { 20000 } else { 10000 }));
+    let timeout = Duration::from_millis(env_num("C20_TIMEOUT_MS", if thorough { 60000 } else { 30000 }));
     let cur = std::env::var("C20_CUR").ok().map(PathBuf::from);
     let mut verify_quota = env_num("C20_VERIFY_QUOTA", 15) as usize;
     let mut reg_quota = env_num("C20_REG_QUOTA", 40) as usize;
